@@ -2,7 +2,7 @@
 // deterministic interleavings: the protected handler blocks on a channel, so every request is
 // "inside the handler" from its `start` line until its `finish` line.
 //
-//	cfg max=<int> [ext=custom|builtin] [slowreject=1]
+//	cfg max=<int> [ext=custom|builtin] [slowreject=1] [verbose=0|1] [log=0|1] [hvar=<name>] [hsend=<name>]
 //	start <id> <src> [amt=<int>] [err=1]  -> admitted | 429 | rejecting | err <status> | status <n> | dup
 //	finish <id> normal|panic              -> released | rejected-done | unknown
 //	pstart <n> <src> <prefix>             -> admitted=<a> rejected=<r> | admitted=<a> rejecting=<r> | dup
@@ -19,7 +19,11 @@
 // answered; the admitted ones then get the ids <prefix>0.., the parked rejections the following ids.
 //
 // ext=custom (default): a utils.ExtractorFunc that returns (src, amt, nil) or an error (err=1).
-// ext=builtin: utils.NewExtractor("request.header.X-Src") — amount is always 1, never an error.
+// ext=builtin: utils.NewExtractor("request.header."+hvar) — amount is always 1, never an error; the
+// client's source label travels in the header hsend, added with Header.Set as a server's header
+// reader would store it (hvar, hsend default X-Src; any spelling of the same name must do).
+// verbose / log: connlimit's Verbose and Logger options (a counting logger); they must not change
+// any answer.  Every exported option of connlimit (Logger, Verbose, ErrorHandler) is reachable here.
 package main
 
 import (
@@ -70,8 +74,18 @@ type h struct {
 	inside  map[string]int  // per source: requests currently inside the protected handler
 	bursts  map[string]*burst
 	slow    bool
+	hsend   string
+	logged  int64
 	seq     int
 }
+
+// countLog is the utils.Logger of log=1.
+type countLog struct{ n *int64 }
+
+func (l countLog) Debug(string, ...any) { atomic.AddInt64(l.n, 1) }
+func (l countLog) Info(string, ...any)  { atomic.AddInt64(l.n, 1) }
+func (l countLog) Warn(string, ...any)  { atomic.AddInt64(l.n, 1) }
+func (l countLog) Error(string, ...any) { atomic.AddInt64(l.n, 1) }
 
 // slowErr is the parking error handler of slowreject=1.
 func (s *h) slowErr(w http.ResponseWriter, r *http.Request, err error) {
@@ -114,6 +128,9 @@ func (s *h) launch(key, src, amt string, fail bool, b *burst) *req {
 	r := httptest.NewRequest(http.MethodGet, "http://h/", nil)
 	r.Header.Set("X-Key", key)
 	r.Header.Set("X-Src", src)
+	if s.builtin {
+		r.Header.Set(s.hsend, src)
+	}
 	r.Header.Set("X-Amt", amt)
 	if fail {
 		r.Header.Set("X-Err", "1")
@@ -344,13 +361,29 @@ func main() {
 		s := &h{reqs: map[string]*req{}, inside: map[string]int{}, bursts: map[string]*burst{}}
 		var ext utils.SourceExtractor = utils.ExtractorFunc(s.customExtract)
 		if v, _ := hx.KV(cfg, "ext"); v == "builtin" {
-			e, err := utils.NewExtractor("request.header.X-Src")
+			hvar, ok := hx.KV(cfg, "hvar")
+			if !ok {
+				hvar = "X-Src"
+			}
+			if s.hsend, ok = hx.KV(cfg, "hsend"); !ok {
+				s.hsend = "X-Src"
+			}
+			if hvar == "" || s.hsend == "" {
+				return nil, "bad-op"
+			}
+			e, err := utils.NewExtractor("request.header." + hvar)
 			if err != nil {
 				return nil, "err " + err.Error()
 			}
 			ext, s.builtin = e, true
 		}
 		var opts []connlimit.Option
+		if v, _ := hx.KV(cfg, "log"); v == "1" {
+			opts = append(opts, connlimit.Logger(countLog{&s.logged}))
+		}
+		if v, ok := hx.KV(cfg, "verbose"); ok {
+			opts = append(opts, connlimit.Verbose(v == "1"))
+		}
 		if v, _ := hx.KV(cfg, "slowreject"); v == "1" {
 			s.slow = true
 			opts = append(opts, connlimit.ErrorHandler(utils.ErrorHandlerFunc(s.slowErr)))
